@@ -67,6 +67,11 @@ func c20TailPrograms(depth int) []string {
 		}
 	}
 	rec(depth, c20Step)
+	// other spellings of the same step: no else clause, recursion in the else or elif clause, the test bound to a variable
+	for _, step := range []string{"if . < N then . + 1 | f end", "if . >= N then . else . + 1 | f end", "if . >= N then . elif true then . + 1 | f end", "if . >= N then . elif . >= 0 then . + 1 | f else . end",
+		"if . < N then . + 1 | f elif false then 0 else . end", ". as $x | if $x < N then $x + 1 | f else . end", "if . < N then (. + 1) as $y | $y | f end", "if . < N then . + 1 | f else . end | ."} {
+		rec(min(depth, 1), step)
+	}
 	// the same definitions called from frames that have their own pending fork
 	base := append([]string{}, out...)
 	for _, caller := range []string{"(0, 0) | f", "[0, 0][] | f", "range(2) | f", "(0 | f), 7", "[0 | f]"} {
